@@ -1,396 +1,230 @@
 /-
-C18 — the gateway attributes progress/results to the right job and keeps the newest.
-Property theorems only (helper lemmas are `private`/`lemma`-style `theorem`s prefixed `aux_`
-and are not counted as obligations... they live in namespace `EkwVerif.Gateway.Aux`).
+C18 — the gateway attributes progress/results to the right job, keeps the newest, never reuses
+ids, answers requests naming unknown jobs/datasets with an error and keeps serving.
+
+Property theorems only (`c18_*`); helper lemmas live in Lemmas/Gateway.lean and
+Lemmas/GatewayServe.lean (namespace `EkwVerif.Gateway.Aux`).
+
+Two levels:
+  * flat histories `runH s evs` of *handled* events (what `handle_fe`/`handle_controller` do),
+  * `serve g rounds`: the poll loop over scripted poll results; `c18_serve_refines_flat` ties the
+    two (the state after any sequence of poll rounds is the flat run over the events that were
+    handled, which are events of the rounds whose socket was registered at poll time).
 -/
-import EkwVerif.Model.Gateway
+import EkwVerif.Lemmas.GatewayServe
 
 namespace EkwVerif.Gateway
 
-/-! ### job-level view of a history -/
+/-! ### newest progress -/
 
-/-- What one controller report does to the job it names, as seen through `serve`. -/
-def jobStep (job : Job) (r : Report) : Job :=
-  if !job.registered then job else putResults (maybeUpdate job r.status r.ts) r.results
-
-/-- The reports of a history that are addressed to job `j`, in order of reception. -/
-def reportsOf (j : String) : List Op → List Report
-  | [] => []
-  | .report r :: ops => if r.job == j then r :: reportsOf j ops else reportsOf j ops
-  | _ :: ops => reportsOf j ops
-
-/-- The progress reports that are actually read: those before the first shutdown notice. -/
-def eff : Bool → List Report → List (String × Int)
-  | false, _ => []
-  | true, [] => []
-  | true, r :: rs =>
-    match r.status with
-    | none => eff true rs
-    | some p => if p == shutdownMark then [] else (p, r.ts) :: eff true rs
-
-/-- the abstract rule: keep the entry with the greatest timestamp, first received wins ties -/
-def upd (cur : String × Int) (e : String × Int) : String × Int :=
-  if cur.2 ≥ e.2 then cur else e
-
-/-- `(p,t)` is the first-received entry among those of greatest timestamp in `es`, provided
-that timestamp exceeds the initial one; otherwise it is the initial value. -/
-def Newest (init : String × Int) (es : List (String × Int)) (cur : String × Int) : Prop :=
-  (cur = init ∧ ∀ e ∈ es, e.2 ≤ init.2) ∨
-  (∃ i : Nat, es[i]? = some cur ∧ init.2 < cur.2 ∧ (∀ e ∈ es, e.2 ≤ cur.2) ∧
-        ∀ k : Nat, k < i → ∀ e : String × Int, es[k]? = some e → e.2 < cur.2)
-
-namespace Aux
-
-theorem newest_snoc (init : String × Int) (es : List (String × Int)) (cur e : String × Int)
-    (h : Newest init es cur) : Newest init (es ++ [e]) (upd cur e) := by
-  unfold upd
-  rcases h with ⟨hc, hall⟩ | ⟨i, hi, hlt, hall, hbefore⟩
-  · subst hc
-    by_cases hge : cur.2 ≥ e.2
-    · simp only [hge, ↓reduceIte]
-      left
-      refine ⟨rfl, ?_⟩
-      intro x hx
-      rcases List.mem_append.mp hx with hx | hx
-      · exact hall x hx
-      · simp at hx; subst hx; exact hge
-    · simp only [hge, ↓reduceIte]
-      right
-      refine ⟨es.length, by simp, by omega, ?_, ?_⟩
-      · intro x hx
-        rcases List.mem_append.mp hx with hx | hx
-        · have := hall x hx; omega
-        · simp at hx; subst hx; omega
-      · intro k hk x hx
-        have : es[k]? = some x := by
-          rw [List.getElem?_append_left hk] at hx; exact hx
-        have hm : x ∈ es := List.mem_of_getElem? this
-        have := hall x hm; omega
-  · have hilt : i < es.length := by
-      rcases Nat.lt_or_ge i es.length with h | h
-      · exact h
-      · rw [List.getElem?_eq_none h] at hi; cases hi
-    by_cases hge : cur.2 ≥ e.2
-    · simp only [hge, ↓reduceIte]
-      right
-      refine ⟨i, ?_, hlt, ?_, ?_⟩
-      · rw [List.getElem?_append_left hilt]; exact hi
-      · intro x hx
-        rcases List.mem_append.mp hx with hx | hx
-        · exact hall x hx
-        · simp at hx; subst hx; exact hge
-      · intro k hk x hx
-        have hk' : k < es.length := by omega
-        rw [List.getElem?_append_left hk'] at hx
-        exact hbefore k hk x hx
-    · simp only [hge, ↓reduceIte]
-      right
-      refine ⟨es.length, by simp, by omega, ?_, ?_⟩
-      · intro x hx
-        rcases List.mem_append.mp hx with hx | hx
-        · have := hall x hx; omega
-        · simp at hx; subst hx; omega
-      · intro k hk x hx
-        rw [List.getElem?_append_left hk] at hx
-        have hm : x ∈ es := List.mem_of_getElem? hx
-        have := hall x hm; omega
-
-theorem newest_foldl (init : String × Int) (es pre : List (String × Int)) (cur : String × Int)
-    (h : Newest init pre cur) : Newest init (pre ++ es) (es.foldl upd cur) := by
-  induction es generalizing pre cur with
-  | nil => simpa using h
-  | cons e es ih =>
-    have := ih (pre ++ [e]) (upd cur e) (newest_snoc init pre cur e h)
-    simpa [List.append_assoc] using this
-
-theorem putResults_progress (job : Job) (rs : List (String × String)) :
-    (putResults job rs).progress = job.progress ∧ (putResults job rs).lastSeen = job.lastSeen ∧
-    (putResults job rs).registered = job.registered := by
-  unfold putResults
-  induction rs generalizing job with
-  | nil => simp
-  | cons r rs ih => simp only [List.foldl_cons]; have := ih { job with results := r :: job.results }; simpa using this
-
-theorem jobStep_foldl_unreg (job : Job) (rs : List Report) (h : job.registered = false) :
-    rs.foldl jobStep job = job := by
-  induction rs with
-  | nil => rfl
-  | cons r rs ih => simp only [List.foldl_cons]; rw [show jobStep job r = job by simp [jobStep, h]]; exact ih
-
-theorem view_foldl (job : Job) (rs : List Report) :
-    let job' := rs.foldl jobStep job
-    (job'.progress, job'.lastSeen) = (eff job.registered rs).foldl upd (job.progress, job.lastSeen) := by
-  induction rs generalizing job with
-  | nil => cases h : job.registered <;> simp [eff]
-  | cons r rs ih =>
-    cases hreg : job.registered with
-    | false =>
-      simp only [List.foldl_cons]
-      rw [show jobStep job r = job by simp [jobStep, hreg]]
-      have := ih job
-      rw [hreg] at this
-      simpa [eff] using this
-    | true =>
-      simp only [List.foldl_cons]
-      have hp := putResults_progress (maybeUpdate job r.status r.ts) r.results
-      have hstep : jobStep job r = putResults (maybeUpdate job r.status r.ts) r.results := by
-        simp [jobStep, hreg]
-      have := ih (jobStep job r)
-      rw [hstep] at this ⊢
-      rw [hp.1, hp.2.1, hp.2.2] at this
-      rw [this]
-      cases hs : r.status with
-      | none => simp [eff, hs, maybeUpdate, hreg]
-      | some p =>
-        by_cases hsd : (p == shutdownMark) = true
-        · simp [eff, hs, maybeUpdate, hsd]
-        · by_cases hge : job.lastSeen ≥ r.ts
-          · simp [eff, hs, maybeUpdate, hsd, hge, hreg, upd]
-          · simp [eff, hs, maybeUpdate, hsd, hge, hreg, upd]
-
-theorem find_set_same (s : St) (j : String) (job : Job) (h : (find? s j).isSome) :
-    find? (set s j job) j = some job := by
-  induction s with
-  | nil => simp [find?] at h
-  | cons e s ih =>
-    obtain ⟨k, jb⟩ := e
-    by_cases he : (k == j) = true
-    · simp [find?, set, he]
-    · simp only [find?, he] at h
-      simp [find?, set, he, ih h]
-
-theorem find_set_other (s : St) (j k : String) (job : Job) (h : (k == j) = false) :
-    find? (set s k job) j = find? s j := by
-  induction s with
-  | nil => rfl
-  | cons e s ih =>
-    obtain ⟨k', jb⟩ := e
-    by_cases he : (k' == k) = true
-    · have hek : k' = k := by simpa using he
-      subst hek
-      simp [find?, set, h, ih]
-    · simp only [set, he]
-      by_cases hej : (k' == j) = true
-      · simp [find?, hej]
-      · simp [find?, hej, ih]
-
-theorem find_append (s : St) (j k : String) (job : Job) :
-    find? (s ++ [(k, job)]) j = match find? s j with
-      | some x => some x
-      | none => if k == j then some job else none := by
-  induction s with
-  | nil => simp [find?]
-  | cons e s ih =>
-    obtain ⟨k', jb⟩ := e
-    by_cases hej : (k' == j) = true
-    · simp [find?, hej]
-    · simp [find?, hej, ih]
-
-theorem find_append_fresh (s : St) (j k : String) (job : Job) (h : (find? s j).isSome) :
-    find? (s ++ [(k, job)]) j = find? s j := by
-  rw [find_append]
-  cases hf : find? s j with
-  | none => simp [hf] at h
-  | some x => rfl
-
-theorem nextFresh_fresh (s : St) (cs : List String) (k : String) (hn : nextFresh s cs = some k) :
-    find? s k = none := by
-  induction cs with
-  | nil => simp [nextFresh] at hn
-  | cons c cs ih =>
-    unfold nextFresh at hn
-    by_cases hc : (find? s c).isSome = true
-    · simp only [hc, ↓reduceIte] at hn; exact ih hn
-    · simp only [hc] at hn
-      have : c = k := by simpa using hn
-      subst this; simpa using hc
-
-/-- Projection: what a history does to job `j` is the fold of `jobStep` over its reports. -/
-theorem find_run (s : St) (ops : List Op) (j : String) (job : Job) (h : find? s j = some job) :
-    find? (run s ops) j = some ((reportsOf j ops).foldl jobStep job) := by
-  induction ops generalizing s job with
-  | nil => simpa [run, reportsOf] using h
-  | cons op ops ih =>
-    unfold run
-    simp only [List.foldl_cons]
-    change find? (run (step s op).1 ops) j = _
-    cases op with
-    | spawn cs =>
-      simp only [step, spawn, reportsOf]
-      cases hn : nextFresh s cs with
-      | none => exact ih s job h
-      | some k =>
-        simp only
-        apply ih
-        rw [find_append_fresh s j k _ (by simp [h])]; exact h
-    | progressOf ids => simpa [step, reportsOf] using ih s job h
-    | getResult a b => simpa [step, reportsOf] using ih s job h
-    | report r =>
-      simp only [step, report, reportsOf]
-      by_cases hj : (r.job == j) = true
-      · have hjj : r.job = j := by simpa using hj
-        simp only [hj, ↓reduceIte, List.foldl_cons]
-        rw [hjj, h]
-        simp only
-        by_cases hreg : job.registered = true
-        · simp only [hreg, Bool.not_true, Bool.false_eq_true, ↓reduceIte]
-          have hs : jobStep job r = putResults (maybeUpdate job r.status r.ts) r.results := by
-            simp [jobStep, hreg]
-          rw [hs]
-          apply ih
-          exact find_set_same s j _ (by simp [h])
-        · have hreg' : job.registered = false := by simpa using hreg
-          simp only [hreg', Bool.not_false, ↓reduceIte]
-          rw [show jobStep job r = job by simp [jobStep, hreg']]
-          exact ih s job h
-      · have hj' : (r.job == j) = false := by simpa using hj
-        simp only [hj', Bool.false_eq_true, ↓reduceIte]
-        cases hf : find? s r.job with
-        | none => exact ih s job h
-        | some jb =>
-          simp only
-          by_cases hreg : jb.registered = true
-          · simp only [hreg, Bool.not_true, Bool.false_eq_true, ↓reduceIte]
-            apply ih
-            rw [find_set_other s j r.job _ hj']; exact h
-          · have hreg' : jb.registered = false := by simpa using hreg
-            simp only [hreg', Bool.not_false, ↓reduceIte]
-            exact ih s job h
-
-theorem lookup_append (rs : List (String × String)) (r : String × String) (d : String) :
-    lookupRes (rs ++ [r]) d = match lookupRes rs d with
-      | some b => some b
-      | none => if r.1 == d then some r.2 else none := by
-  induction rs with
-  | nil => obtain ⟨a, b⟩ := r; simp [lookupRes]
-  | cons e rs ih =>
-    obtain ⟨k, v⟩ := e
-    by_cases he : (k == d) = true
-    · simp [lookupRes, he]
-    · simp [lookupRes, he, ih]
-
-theorem lookup_putResults (job : Job) (rs : List (String × String)) (d : String) :
-    lookupRes (putResults job rs).results d =
-      match lookupRes rs.reverse d with
-      | some b => some b
-      | none => lookupRes job.results d := by
-  unfold putResults
-  induction rs generalizing job with
-  | nil => simp [lookupRes]
-  | cons r rs ih =>
-    simp only [List.foldl_cons, List.reverse_cons]
-    rw [ih, lookup_append]
-    obtain ⟨k, v⟩ := r
-    cases hf : lookupRes rs.reverse d with
-    | some x => simp
-    | none =>
-      by_cases hr : (k == d) = true
-      · simp [lookupRes, hr]
-      · simp [lookupRes, hr]
-
-end Aux
-
-/-! ### Property theorems -/
-
-/-- **Newest progress wins.** After any history `ops`, the progress shown for a job that
-existed at the start is the first-received among the read progress reports with the
-greatest timestamp (if that exceeds the initial `last_seen`), otherwise the initial one.
-An older report arriving late never overwrites a newer one. -/
-theorem c18_newest (s : St) (ops : List Op) (j : String) (job : Job) (h : find? s j = some job) :
-    ∃ job', find? (run s ops) j = some job' ∧
-      Newest (job.progress, job.lastSeen) (eff job.registered (reportsOf j ops))
-        (job'.progress, job'.lastSeen) := by
-  refine ⟨_, Aux.find_run s ops j job h, ?_⟩
+/-- **Newest progress wins.** After any history `evs` of handled events, the progress shown for
+a job that existed at the start is the first-received among the progress reports naming the job
+(on whatever socket they arrived) with the greatest timestamp, if that exceeds the initial
+`last_seen`, otherwise the initial one. An older report arriving late never overwrites a newer
+one; shutdown notices and uploads are no entries of the list, so they never erase it. -/
+theorem c18_newest (s : St) (evs : List Ev) (j : String) (job : Job) (h : find? s j = some job) :
+    ∃ job', find? (runH s evs) j = some job' ∧
+      Newest (job.progress, job.lastSeen) (eff (reportsOf j evs)) (job'.progress, job'.lastSeen) := by
+  refine ⟨_, Aux.find_run s evs j job h, ?_⟩
   rw [Aux.view_foldl]
   have h0 : Newest (job.progress, job.lastSeen) [] (job.progress, job.lastSeen) := Or.inl ⟨rfl, by simp⟩
-  have := Aux.newest_foldl (job.progress, job.lastSeen) (eff job.registered (reportsOf j ops)) []
+  have := Aux.newest_foldl (job.progress, job.lastSeen) (eff (reportsOf j evs)) []
     (job.progress, job.lastSeen) h0
   simpa using this
 
 /-- A freshly spawned job starts at "0.00" with `last_seen = -1`: every report with a
 non-negative timestamp is newer than the initial value. -/
-theorem c18_newest_spawned (s : St) (cs : List String) (j : String) (ops : List Op)
-    (h : (spawn s cs).2 = some j) :
-    ∃ job', find? (run (spawn s cs).1 ops) j = some job' ∧
-      Newest (started, -1) (eff true (reportsOf j ops)) (job'.progress, job'.lastSeen) := by
+theorem c18_newest_spawned (s : St) (cs : List String) (j : String) (evs : List Ev)
+    (h : (spawn s cs false).2 = some j) :
+    ∃ job', find? (runH (spawn s cs false).1 evs) j = some job' ∧
+      Newest (started, -1) (eff (reportsOf j evs)) (job'.progress, job'.lastSeen) := by
   unfold spawn at h ⊢
   cases hn : nextFresh s cs with
   | none => simp [hn] at h
   | some k =>
-    simp only [hn] at h ⊢
+    simp only [hn, Bool.false_eq_true, ↓reduceIte] at h ⊢
     have hk : k = j := by simpa using h
     subst hk
     have hfresh : find? s k = none := Aux.nextFresh_fresh s cs k hn
-    have hfind : find? (s ++ [(k, { progress := started, lastSeen := -1, results := [], registered := true })]) k
-        = some { progress := started, lastSeen := -1, results := [], registered := true } := by
+    have hfind : find? (s ++ [(k, freshJob)]) k = some freshJob := by
       rw [Aux.find_append, hfresh]; simp
-    exact c18_newest _ ops k _ hfind
+    exact c18_newest _ evs k _ hfind
 
-/-- **The shutdown notice does not erase progress** and is the last report read. -/
+/-- **The shutdown notice does not erase progress**: along any later history the shown progress is
+the fold of the newest-wins rule over the progress reports that follow, started from what was shown
+before the notice; and the job's own socket is closed from then on. -/
 theorem c18_shutdown_keeps (job : Job) (r : Report) (rs : List Report)
-    (hreg : job.registered = true) (hs : r.status = some shutdownMark) :
+    (hs : r.status = some shutdownMark) :
     let job' := (r :: rs).foldl jobStep job
-    job'.progress = job.progress ∧ job'.lastSeen = job.lastSeen ∧ job'.registered = false := by
-  simp only [List.foldl_cons]
-  have hp := Aux.putResults_progress (maybeUpdate job r.status r.ts) r.results
-  have h1 : jobStep job r = putResults (maybeUpdate job r.status r.ts) r.results := by
-    simp [jobStep, hreg]
-  have hm : maybeUpdate job r.status r.ts = { job with registered := false } := by
-    simp [maybeUpdate, hs]
-  have hreg' : (jobStep job r).registered = false := by rw [h1, hp.2.2, hm]
-  rw [Aux.jobStep_foldl_unreg _ rs hreg', h1, hp.1, hp.2.1, hp.2.2, hm]
-  simp
+    (job'.progress, job'.lastSeen) = (eff rs).foldl upd (job.progress, job.lastSeen) ∧
+    job'.registered = false := by
+  constructor
+  · have := Aux.view_foldl job (r :: rs)
+    simp only at this
+    rw [this]
+    simp [eff, hs]
+  · simp only [List.foldl_cons]
+    apply Aux.jobStep_foldl_unreg
+    rw [Aux.jobStep_registered]; simp [hs]
 
-/-- **Results are returned exactly as uploaded, per (job, dataset).** One report's uploads:
-the latest binding for `d` in the report wins, otherwise the previous value stays. -/
-theorem c18_results (job : Job) (rs : List (String × String)) (d : String) :
-    lookupRes (putResults job rs).results d =
-      match lookupRes rs.reverse d with
-      | some b => some b
-      | none => lookupRes job.results d :=
-  Aux.lookup_putResults job rs d
+/-! ### results -/
 
-/-- **Results and progress of a job are untouched by reports for other jobs, by queries
-and by spawns.** -/
-theorem c18_isolation (s : St) (ops : List Op) (j : String) (job : Job) (h : find? s j = some job)
-    (hno : reportsOf j ops = []) : find? (run s ops) j = some job := by
-  have := Aux.find_run s ops j job h
-  rw [hno] at this; simpa using this
+/-- **Results over histories.** After any history of handled events, the result returned for
+(`j`,`d`) is the last accepted upload of `d` among the reports naming `j`, in order of reception;
+if there is none, what was stored at the start. (`uploads`: everything every report carries, except
+a repeated shutdown notice, which is rejected as a whole.) -/
+theorem c18_results_history (s : St) (evs : List Ev) (j d : String) (job : Job) (h : find? s j = some job) :
+    getResult (runH s evs) j d =
+      (lastFor d (uploads job.registered (reportsOf j evs))).or (lookupRes job.results d) := by
+  unfold getResult
+  rw [Aux.find_run s evs j job h]
+  exact Aux.results_foldl job _ d
 
-/-- **Job identifiers are never reused**: `spawn` returns an id that names no existing job,
-and every existing job keeps its entry. -/
-theorem c18_ids_fresh (s : St) (cs : List String) (j : String) (h : (spawn s cs).2 = some j) :
-    find? s j = none ∧ ∀ k job, find? s k = some job → find? (spawn s cs).1 k = some job := by
+/-- For a job spawned at the start of the history: the last accepted upload for exactly this job
+and dataset, else an error response. -/
+theorem c18_results_spawned (s : St) (cs : List String) (j d : String) (evs : List Ev)
+    (h : (spawn s cs false).2 = some j) :
+    getResult (runH (spawn s cs false).1 evs) j d = lastFor d (uploads true (reportsOf j evs)) := by
   unfold spawn at h ⊢
   cases hn : nextFresh s cs with
   | none => simp [hn] at h
   | some k =>
-    simp only [hn] at h ⊢
+    simp only [hn, Bool.false_eq_true, ↓reduceIte] at h ⊢
     have hk : k = j := by simpa using h
     subst hk
-    constructor
-    · exact Aux.nextFresh_fresh s cs k hn
-    · intro k' job hk'
+    have hfresh : find? s k = none := Aux.nextFresh_fresh s cs k hn
+    have hfind : find? (s ++ [(k, freshJob)]) k = some freshJob := by
+      rw [Aux.find_append, hfresh]; simp
+    rw [c18_results_history _ evs k d freshJob hfind]
+    simp [freshJob, lookupRes]
+
+/-- **A result is returned exactly as uploaded and only for the job and dataset it was uploaded
+for**: whatever is returned for (`j`,`d`) was carried, for dataset `d`, by a handled report naming
+`j`. -/
+theorem c18_results_only_uploaded (s : St) (cs : List String) (j d b : String) (evs : List Ev)
+    (h : (spawn s cs false).2 = some j)
+    (hr : getResult (runH (spawn s cs false).1 evs) j d = some b) :
+    ∃ k r, Ev.ctrl k (.report r) ∈ evs ∧ r.job = j ∧ (d, b) ∈ r.results := by
+  rw [c18_results_spawned s cs j d evs h] at hr
+  have hm := Aux.lastFor_mem d _ b hr
+  obtain ⟨r, hrs, hp⟩ := Aux.uploads_mem _ _ _ hm
+  have : ∀ evs : List Ev, r ∈ reportsOf j evs → ∃ k, Ev.ctrl k (.report r) ∈ evs ∧ r.job = j := by
+    intro evs
+    induction evs with
+    | nil => simp [reportsOf]
+    | cons e evs ih =>
+      intro hmem
+      cases e with
+      | fe q =>
+        simp only [reportsOf] at hmem
+        obtain ⟨k, hk, hj⟩ := ih hmem
+        exact ⟨k, List.mem_cons_of_mem _ hk, hj⟩
+      | ctrl k m =>
+        cases m with
+        | garbage =>
+          simp only [reportsOf] at hmem
+          obtain ⟨k', hk, hj⟩ := ih hmem
+          exact ⟨k', List.mem_cons_of_mem _ hk, hj⟩
+        | report r' =>
+          simp only [reportsOf] at hmem
+          by_cases hj : (r'.job == j) = true
+          · simp only [hj, ↓reduceIte, List.mem_cons] at hmem
+            rcases hmem with hmem | hmem
+            · subst hmem
+              exact ⟨k, List.mem_cons_self, by simpa using hj⟩
+            · obtain ⟨k', hk, hj'⟩ := ih hmem
+              exact ⟨k', List.mem_cons_of_mem _ hk, hj'⟩
+          · simp only [hj, Bool.false_eq_true, ↓reduceIte] at hmem
+            obtain ⟨k', hk, hj'⟩ := ih hmem
+            exact ⟨k', List.mem_cons_of_mem _ hk, hj'⟩
+  obtain ⟨k, hk, hj⟩ := this evs hrs
+  exact ⟨k, r, hk, hj, hp⟩
+
+/-- A dataset for which no handled report naming the job carried anything: error response. -/
+theorem c18_never_uploaded_is_error (s : St) (cs : List String) (j d : String) (evs : List Ev)
+    (h : (spawn s cs false).2 = some j)
+    (hno : ∀ r ∈ reportsOf j evs, ∀ p ∈ r.results, p.1 ≠ d) :
+    handle (runH (spawn s cs false).1 evs) (.fe (.getResult j d)) =
+      some (runH (spawn s cs false).1 evs, .result none) := by
+  simp only [handle, handleFe]
+  rw [c18_results_spawned s cs j d evs h]
+  rw [Aux.lastFor_none]
+  intro p hp
+  obtain ⟨r, hr, hpr⟩ := Aux.uploads_mem _ _ _ hp
+  exact hno r hr p hpr
+
+/-- **Results and progress of a job are untouched by reports naming other jobs (known or not),
+by garbage, by queries and by submits.** -/
+theorem c18_isolation (s : St) (evs : List Ev) (j : String) (job : Job) (h : find? s j = some job)
+    (hno : reportsOf j evs = []) : find? (runH s evs) j = some job := by
+  have := Aux.find_run s evs j job h
+  rw [hno] at this; simpa using this
+
+/-- A report that is rejected (names no known job, or repeats a shutdown notice) changes nothing. -/
+theorem c18_rejected_report_harmless (s : St) (r : Report) (h : (report s r).2 = .error) :
+    (report s r).1 = s := by
+  unfold report at h ⊢
+  cases hf : find? s r.job with
+  | none => simp only; split <;> rfl
+  | some job =>
+    simp only [hf] at h ⊢
+    by_cases hsec : secondShutdown job r = true
+    · simp [hsec]
+    · simp [hsec] at h
+
+/-! ### identifiers -/
+
+/-- **Job identifiers are never reused**: `spawn` returns an id that names no existing job,
+and every existing job keeps its entry; a failed launch changes nothing. -/
+theorem c18_ids_fresh (s : St) (cs : List String) (fail : Bool) :
+    (∀ j, (spawn s cs fail).2 = some j →
+      find? s j = none ∧ ∀ k job, find? s k = some job → find? (spawn s cs fail).1 k = some job) ∧
+    ((spawn s cs fail).2 = none → (spawn s cs fail).1 = s) := by
+  unfold spawn
+  cases hn : nextFresh s cs with
+  | none => simp
+  | some k =>
+    cases fail
+    · simp only [Bool.false_eq_true, ↓reduceIte, Option.some.injEq, reduceCtorEq, false_imp_iff, and_true]
+      intro j hk
+      subst hk
+      refine ⟨Aux.nextFresh_fresh s cs k hn, ?_⟩
+      intro k' job hk'
       rw [Aux.find_append_fresh s k' k _ (by simp [hk'])]; exact hk'
+    · simp
+
+/-- **Over histories: the ids handed out by submit responses are pairwise distinct** and none of
+them named a job before. -/
+theorem c18_ids_distinct (s : St) (evs : List Ev) :
+    (handedOut s evs).Nodup ∧ ∀ j ∈ handedOut s evs, find? s j = none :=
+  ⟨Aux.handedOut_nodup s evs, Aux.handedOut_fresh s evs⟩
 
 /-- Jobs are never forgotten: any history keeps every id it ever had. -/
-theorem c18_ids_persist (s : St) (ops : List Op) (j : String) (h : (find? s j).isSome) :
-    (find? (run s ops) j).isSome := by
+theorem c18_ids_persist (s : St) (evs : List Ev) (j : String) (h : (find? s j).isSome) :
+    (find? (runH s evs) j).isSome := by
   cases hf : find? s j with
   | none => simp [hf] at h
-  | some job => rw [Aux.find_run s ops j job hf]; simp
+  | some job => rw [Aux.find_run s evs j job hf]; simp
 
-/-- **Unknown job or dataset ⇒ error response, state unchanged.** -/
+/-- **The jobs the gateway tracks are exactly the ids it handed out** (no phantom jobs after a
+failed submit, none forgotten). -/
+theorem c18_known_iff_handed_out (evs : List Ev) (j : String) :
+    (find? (runH [] evs) j).isSome = true ↔ j ∈ handedOut [] evs := by
+  rw [Aux.known_iff]; simp [find?]
+
+/-! ### unknown job / dataset -/
+
+/-- **Unknown job ⇒ error response, state unchanged** (one step). -/
 theorem c18_unknown_is_error (s : St) (j d : String) (ids : List String)
     (hj : find? s j = none) (hm : j ∈ ids) :
-    (step s (.getResult j d)) = (s, .result none) ∧
-    (step s (.progressOf ids)) = (s, .progress none) := by
+    handle s (.fe (.getResult j d)) = some (s, .result none) ∧
+    handle s (.fe (.progressOf ids)) = some (s, .progress none) := by
   constructor
-  · simp [step, getResult, hj]
-  · simp only [step, progressOf]
+  · simp [handle, handleFe, getResult, hj]
+  · simp only [handle, handleFe, progressOf]
     have hne : ids.isEmpty = false := by cases ids <;> simp at hm ⊢
     simp only [hne, Bool.false_eq_true, ↓reduceIte]
-    congr 2
+    congr 3
     induction ids with
     | nil => simp at hm
     | cons i is ih =>
@@ -408,17 +242,163 @@ theorem c18_unknown_is_error (s : St) (j d : String) (ids : List String)
           have := ih hm' hne'
           simp [this]
 
+/-- **Over histories: a query naming an id that no submit response ever handed out is answered
+with an error and changes nothing**, whatever reports (also ones naming that id) were handled. -/
+theorem c18_never_handed_out_is_error (evs : List Ev) (j d : String) (ids : List String)
+    (hj : j ∉ handedOut [] evs) (hm : j ∈ ids) :
+    handle (runH [] evs) (.fe (.getResult j d)) = some (runH [] evs, .result none) ∧
+    handle (runH [] evs) (.fe (.progressOf ids)) = some (runH [] evs, .progress none) := by
+  apply c18_unknown_is_error _ j d ids _ hm
+  cases hf : find? (runH [] evs) j with
+  | none => rfl
+  | some x => exact absurd ((c18_known_iff_handed_out evs j).mp (by simp [hf])) hj
+
 theorem c18_unknown_dataset_is_error (s : St) (j d : String) (job : Job)
     (hj : find? s j = some job) (hd : lookupRes job.results d = none) :
-    (step s (.getResult j d)) = (s, .result none) := by
-  simp [step, getResult, hj, hd]
+    handle s (.fe (.getResult j d)) = some (s, .result none) := by
+  simp [handle, handleFe, getResult, hj, hd]
 
-/-! ### non-vacuity: a concrete history in which an old report arrives late -/
+/-! ### the serve loop -/
+
+/-- **The poll loop refines the flat machine**: after any sequence of poll rounds the state is the
+flat run over the handled events, and every handled event is an event of some round. -/
+theorem c18_serve_refines_flat (g : G) (rounds : List (List Ev)) :
+    (serve g rounds).1.st = runH g.st (serve g rounds).2.2 ∧
+    ∀ e ∈ (serve g rounds).2.2, ∃ b ∈ rounds, e ∈ b :=
+  ⟨Aux.serve_st g rounds, Aux.serve_handled_mem g rounds⟩
+
+/-- **The gateway keeps serving.** Whatever reports (naming unknown jobs, repeating shutdown
+notices, arriving on foreign sockets, garbage) and whatever well-formed requests (naming unknown
+jobs or datasets, submits whose launch fails) arrive, the loop is running after every sequence of
+poll rounds that contains no shutdown request and no frontend bytes that `parse_request` rejects. -/
+theorem c18_keeps_serving (g : G) (rounds : List (List Ev)) (hrun : g.phase = .running)
+    (hm : ∀ b ∈ rounds, NoMalformed b) (hs : ∀ b ∈ rounds, NoShutdown b) :
+    (serve g rounds).1.phase = .running := by
+  induction rounds generalizing g with
+  | nil => simpa [serve] using hrun
+  | cons b bs ih =>
+    simp only [serve]
+    apply ih
+    · exact (Aux.poll_running g b hrun).2.2.2 (hm b List.mem_cons_self) (hs b List.mem_cons_self)
+    · exact fun b' hb' => hm b' (List.mem_cons_of_mem _ hb')
+    · exact fun b' hb' => hs b' (List.mem_cons_of_mem _ hb')
+
+/-- **A running gateway answers every event of a poll round in kind**: a socket registered at
+poll time is handled (request → response of its class, controller message → processed), one that
+is not registered is left unread; nothing is dropped and the process does not end. -/
+theorem c18_running_answers (g : G) (b : List Ev) (hrun : g.phase = .running) (hm : NoMalformed b) :
+    (poll g b).g.phase ≠ .dead ∧ answersAll (flagged g.st b) (poll g b).outs = true :=
+  (Aux.poll_running g b hrun).2.2.1 hm
+
+/-- Over histories, shutdown requests allowed: the process never ends by an exception and no event
+is lost, unless frontend bytes arrive that `parse_request` rejects. -/
+theorem c18_serve_never_dies (g : G) (rounds : List (List Ev)) (hrun : g.phase ≠ .dead)
+    (hm : ∀ b ∈ rounds, NoMalformed b) :
+    (serve g rounds).1.phase ≠ .dead ∧
+    ∀ outs ∈ (serve g rounds).2.1, ∀ o ∈ outs, o ≠ .died ∧ o ≠ .lost := by
+  induction rounds generalizing g with
+  | nil => simpa [serve] using hrun
+  | cons b bs ih =>
+    simp only [serve]
+    have hb := hm b List.mem_cons_self
+    have hbs : ∀ b' ∈ bs, NoMalformed b' := fun b' hb' => hm b' (List.mem_cons_of_mem _ hb')
+    by_cases hr : g.phase = .running
+    · have hp := (Aux.poll_running g b hr).2.2.1 hb
+      have := ih (poll g b).g hp.1 hbs
+      refine ⟨this.1, ?_⟩
+      intro outs houts o ho
+      rcases List.mem_cons.mp houts with h | h
+      · subst h
+        have := Aux.answersAll_served _ _ hp.2 o ho
+        exact ⟨this.1, this.2.1⟩
+      · exact this.2 outs h o ho
+    · have hp := Aux.poll_ended g b hr
+      have := ih (poll g b).g (by rw [hp.1]; exact hrun) hbs
+      refine ⟨this.1, ?_⟩
+      intro outs houts o ho
+      rcases List.mem_cons.mp houts with h | h
+      · subst h
+        have := hp.2.2 o ho
+        subst this; simp
+      · exact this.2 outs h o ho
+
+/-- The boundary of the two theorems above: frontend bytes that are no request end the loop for
+every job (`parse_request` raises outside the try blocks of `handle_fe`). -/
+theorem c18_malformed_frontend_bytes_end_loop :
+    let r := serve G.init [[.fe (.submit ["a"] false)], [.fe .malformed], [.fe (.progressOf [])]]
+    r.1.phase = .dead ∧ r.2.1 = [[.spawned (some "a")], [.died], [.notServed]] := by
+  decide
+
+/-- **A closed socket is never read again**: once the shutdown notice of job `j` has been handled,
+no later poll round handles an event of `j`'s own socket. -/
+theorem c18_closed_socket_never_read (g : G) (rounds : List (List Ev)) (j : String) (job : Job)
+    (hf : find? g.st j = some job) (hreg : job.registered = false) :
+    ∀ e ∈ (serve g rounds).2.2, ∀ m, e ≠ .ctrl j m := by
+  induction rounds generalizing g job with
+  | nil => simp [serve]
+  | cons b bs ih =>
+    simp only [serve]
+    have hp := Aux.poll_closed g b j job hf hreg
+    obtain ⟨job', hf', hreg'⟩ := hp.1
+    intro e he m
+    rcases List.mem_append.mp he with he | he
+    · exact hp.2 e he m
+    · exact ih (poll g b).g job' hf' hreg' e he m
+
+/-- **The shutdown notice is final for reports that arrive where they belong**: if every report of
+the history arrives on the socket of the job it names, nothing changes for a job after its
+shutdown notice. -/
+theorem c18_shutdown_final_own_socket (g : G) (rounds : List (List Ev)) (j : String) (job : Job)
+    (hf : find? g.st j = some job) (hreg : job.registered = false)
+    (hown : ∀ b ∈ rounds, ∀ k r, Ev.ctrl k (.report r) ∈ b → k = r.job) :
+    find? (serve g rounds).1.st j = some job := by
+  rw [(c18_serve_refines_flat g rounds).1]
+  apply c18_isolation _ _ j job hf
+  have hclosed := c18_closed_socket_never_read g rounds j job hf hreg
+  have hmem := (c18_serve_refines_flat g rounds).2
+  generalize (serve g rounds).2.2 = hd at hclosed hmem
+  induction hd with
+  | nil => rfl
+  | cons e evs ih =>
+    have ih' := ih (fun e he => hclosed e (List.mem_cons_of_mem _ he)) (fun e he => hmem e (List.mem_cons_of_mem _ he))
+    cases e with
+    | fe q => simpa [reportsOf] using ih'
+    | ctrl k m =>
+      cases m with
+      | garbage => simpa [reportsOf] using ih'
+      | report r =>
+        simp only [reportsOf]
+        by_cases hj : (r.job == j) = true
+        · exfalso
+          obtain ⟨b, hb, heb⟩ := hmem _ List.mem_cons_self
+          have hk := hown b hb k r heb
+          have hjj : r.job = j := by simpa using hj
+          exact hclosed _ List.mem_cons_self (.report r) (by rw [hk, hjj])
+        · simp only [hj, Bool.false_eq_true, ↓reduceIte]; exact ih'
+
+/-! ### non-vacuity: concrete histories -/
+
+/-- an old report arrives late; an upload; a shutdown notice; a later report through a foreign socket -/
 example :
-    let s0 := (spawn [] ["a"]).1
-    let ops := [Op.report ⟨"a", some "50.00", 20, []⟩, Op.report ⟨"a", some "10.00", 5, [("d", "ff")]⟩,
-                Op.report ⟨"a", some "Shutdown", 30, []⟩, Op.report ⟨"a", some "99.00", 40, []⟩]
-    (progressOf (run s0 ops) ["a"] = some [("a", "50.00")]) ∧ getResult (run s0 ops) "a" "d" = some "ff" := by
+    let s0 := (spawn [] ["a"] false).1
+    let evs := [Ev.ctrl "a" (.report ⟨"a", some "50.00", 20, []⟩), .ctrl "a" (.report ⟨"a", some "10.00", 5, [("d", "ff")]⟩),
+                .ctrl "a" (.report ⟨"a", some "Shutdown", 30, []⟩), .ctrl "b" (.report ⟨"zz", some "99.00", 40, [("d", "00")]⟩)]
+    (progressOf (runH s0 evs) ["a"] = some [("a", "50.00")]) ∧ getResult (runH s0 evs) "a" "d" = some "ff" ∧
+    getResult (runH s0 evs) "zz" "d" = none := by
+  decide
+
+/-- the serve loop: a report naming an unknown job, a failed launch, a report on a closed socket, a
+shutdown request in the middle of a round -/
+example :
+    let r := serve G.init [[.fe (.submit ["a"] false)], [.fe (.submit ["b"] true)],
+                           [.ctrl "a" (.report ⟨"nope", some "1.00", 1, []⟩)], [.fe (.submit ["a", "c"] false)],
+                           [.ctrl "a" (.report ⟨"a", some "Shutdown", 2, []⟩)],
+                           [.ctrl "a" (.report ⟨"a", some "7.00", 3, []⟩), .fe (.progressOf ["b"])],
+                           [.fe .shutdown, .ctrl "c" (.report ⟨"c", some "5.00", 3, []⟩)], [.fe (.progressOf [])]]
+    r.1.phase = .stopped ∧
+    r.2.1 = [[.spawned (some "a")], [.spawned none], [.reported .error], [.spawned (some "c")], [.reported .ok],
+             [.notRead, .progress none], [.bye, .reported .ok], [.notServed]] ∧
+    handedOut [] r.2.2 = ["a", "c"] ∧ progressOf r.1.st [] = some [("a", "0.00"), ("c", "5.00")] := by
   decide
 
 end EkwVerif.Gateway
